@@ -56,10 +56,10 @@ BUDGET_S = {"quick": 600, "thorough": 3000}
 SH = {"sq": (3, 3), "tall": (3, 2), "wide": (2, 3)}
 SHAPES = ["tall", "wide", "sq"]
 BATCHES = [(), (2,), (1, 2)]
-KINDS = ["mv", "mvr", "mvm", "all", "mat", "math", "mfh", "jac", "hess"]
+KINDS = ["mv", "mvr", "mvm", "all", "mat", "math", "mfh", "jac", "hess", "idv"]
 KINDS3 = ["mv", "mvr", "mvm", "all", "mat", "math", "mfh", "jac"]
-SQ_ONLY = ("math", "mfh", "hess")
-NOBATCH = ("jac", "hess")
+SQ_ONLY = ("math", "mfh", "hess", "idv")
+NOBATCH = ("jac", "hess", "idv")
 REAL_ONLY = ("jac", "hess")
 UNARY = ["H", "mul2", "mulm3", "rmul"]
 XBATCHES = [(), (3,), (2,), (2, 1), (1, 2), (3, 1, 2)]
@@ -110,6 +110,12 @@ def leaf_classes():
     _CLS["mvr"] = type("OpMvR", (LinearOperator,), dict(base, _rmv=rmv))
     _CLS["mvm"] = type("OpMvM", (LinearOperator,), dict(base, _mm=mm))
     _CLS["all"] = type("OpAll", (LinearOperator,), dict(base, _rmv=rmv, _mm=mm, _rmm=rmm, _fullmatrix=full))
+
+    def mv_same(self, x):
+        return x            # the identity as users write it: the product IS the argument (same tensor object)
+    # idv: Hermitian-flagged identity whose _mv hands back its argument; an operator built on top of it must not
+    # modify that tensor (it is the caller's operand)
+    _CLS["idv"] = type("OpIdSame", (LinearOperator,), dict(base, _mv=mv_same))
     return _CLS
 
 
@@ -134,6 +140,9 @@ def make_leaf(kind, shp, batch, dtype, g):
             op = hess(f, (x0,), idxs=0)
             D = torch.autograd.functional.hessian(f, x0.detach())
         return op, D.detach()
+    if kind == "idv":
+        mat = torch.eye(p, dtype=dtype)
+        return leaf_classes()["idv"](mat, True), mat
     mat = randn(tuple(batch) + (p, q), dtype, g)
     if kind in ("math", "mfh"):
         mat = (mat + mat.transpose(-2, -1).conj()) * 0.5
@@ -387,8 +396,13 @@ class TreeChecker:
                 if f is None:
                     continue
                 x = randn(tuple(xb) + ((n, 2) if ismat else (n,)), self.dtype, self.g)
+                xkeep = x.clone()
                 o = call(f, x)
                 self.n += 1
+                if not torch.equal(x, xkeep):
+                    self.report("operand-modified-in-place:%s" % prod,
+                                {"max_abs_change": float((x - xkeep).abs().max())}, product=prod, xb=list(xb))
+                    x = xkeep.clone()
                 if not ok:
                     if o.exc is None:
                         self.report("nonbroadcastable-operand-accepted:%s" % prod,
